@@ -67,7 +67,7 @@ def source(plan):
     okw = []
     if o.get("addition") is not None:
         okw.append("addition=%s" % ("Leaf" if o["addition"] == "leaf" else repr(o["addition"])))
-    for k in ("ignore_delete_nonexistent", "immutable"):
+    for k in ("ignore_delete_nonexistent", "immutable", "collect_errors"):
         if o.get(k):
             okw.append(f"{k}=True")
     if plan.get("mode") == "class":
@@ -178,6 +178,8 @@ def generate(rng, tier):
         o["addition"] = rng.choice([True, False, "leaf"])
     if rng.random() < 0.3:
         o["ignore_delete_nonexistent"] = True
+    if rng.random() < 0.2:
+        o["collect_errors"] = True
     if rng.random() < (0.12 if plan["inherit"] else 0.04):
         o["immutable"] = True
     pool = _Pool()
